@@ -1,4 +1,5 @@
 """C07 — Chunk store round trip and chunk addressing (correspondence + failing-input search)."""
+import io
 import itertools
 import os
 import shutil
@@ -20,9 +21,18 @@ RULE = ('(a) round trips: random dtype (incl. structured, big-endian, bool, comp
         'empty) with recorded get_chunk requests; (c) random put/get/mark_complete/is_complete sequences; (d) '
         'chunk_metadata / chunk_id_str on random slices (negative, > width, non-unit steps, wrong shapes, object dtypes); '
         '(e) generate_chunks on random and (thorough) all shapes <= (6,6,4) x budgets 1..64 x flags; (f) bucket-name '
-        'normalisation on random paths. A case is non-trivial when it stores at least two chunks / has a non-empty '
-        'selection / actually splits a dimension / has an underscore in the bucket; distinct by its canonical input')
-ASSUMPTIONS = ['dask assembles blocks by position and culls blocks outside a slice (modelled: element p comes from the '
+        'normalisation on random paths; (g) chunks handed to put_chunk / put_dask_array in 9 memory layouts (C, Fortran, '
+        'transposed / strided / negative-stride / interior / axis-rotated views, unaligned, read-only; blocks of transposed '
+        'dask arrays) on all back-ends incl. direct_write, with the stored .npy objects (header fortran_order/shape/dtype and '
+        'body bytes) compared with the model, and foreign .npy objects (Fortran order, format 1.0/2.0) read back; (h) arrays '
+        'written in several parts (equal or different chunk layouts, offsets) and/or mirrored to two stores / two array names '
+        'by ONE dask.compute call and read back (whole, part by part, indexed) by one compute call. A case is non-trivial when it stores at least two chunks / has a non-empty '
+        'selection / actually splits a dimension / has an underscore in the bucket / has a non-C layout of a >= 2 x 2 array / puts at least two graphs; distinct by its '
+        'canonical input')
+ASSUMPTIONS = ['dask merges the graphs handed to one compute call by task name (modelled: of several requests with the same '
+               'name only the first is evaluated); two RecS3 stores would share the one loopback endpoint, so at most one S3 '
+               'store takes part in a multi-store case',
+               'dask assembles blocks by position and culls blocks outside a slice (modelled: element p comes from the '
                'block containing p; an empty selection still takes block 0 of each axis)',
                'numpy .npy encoding/decoding and urllib/requests URL handling are exercised, not modelled',
                'generate_chunks: equality with the exact-arithmetic model is demanded only where the float64 '
@@ -99,9 +109,9 @@ class Backends:
         self.n = 0
 
     def done(self):
-        if getattr(self, 'last_dir', None):
-            shutil.rmtree(self.last_dir, ignore_errors=True)
-            self.last_dir = None
+        for d in getattr(self, 'dirs', []):
+            shutil.rmtree(d, ignore_errors=True)
+        self.dirs = []
 
     def close(self):
         shutil.rmtree(self.tmp, ignore_errors=True)
@@ -112,19 +122,20 @@ class Backends:
         if kind == 'dict':
             st = c07stores.RecDict(x=np.zeros(full_shape, np.dtype(dtype)))
             return st, 'x', None
-        if kind == 'npy':
+        if kind in ('npy', 'npyd'):
             self.n += 1
             d = os.path.join(self.tmp, 'n%d' % self.n)
             os.makedirs(d)
-            st = c07stores.RecNpy(d)
+            st = c07stores.RecNpy(d, direct_write=(kind == 'npyd'))
             st.create_array(name)
+            st.root = d
 
             def keys():
                 out = []
                 for root, _, files in os.walk(d):
                     out += [os.path.relpath(os.path.join(root, f), d) for f in files]
                 return sorted(out)
-            self.last_dir = d
+            self.dirs = getattr(self, 'dirs', []) + [d]
             return st, name, keys
         self.s3.reset()
         st = c07stores.RecS3(self.s3.url, timeout=(5, 5), retries=0)
@@ -763,6 +774,487 @@ def run_buckets(ctx, n):
 
 
 # ---------------------------------------------------------------------------------------------------
+# (g) memory layouts of the chunks handed to the store, the objects written, foreign (Fortran-ordered) objects
+
+LAYOUTS = ['C', 'F', 'T', 'strided', 'neg', 'inner', 'perm', 'unaligned', 'readonly']
+NAMED1 = {'npy': 'x', 'npyd': 'sub/x', 's3': 'b_k/x_y', 'dict': 'x'}
+
+
+def make_layout(x, layout):
+    """An ndarray with the logical content of x and the given memory layout."""
+    x = np.asarray(x)
+    if layout == 'C' or (x.ndim == 0 and layout not in ('unaligned', 'readonly')):
+        return np.array(x, order='C')
+    if layout == 'F':
+        return np.asfortranarray(x)
+    if layout == 'T':                       # transposed view of a C array
+        return np.ascontiguousarray(x.T).T
+    if layout == 'strided':                 # every second element of a larger array
+        big = np.zeros(tuple(2 * n for n in x.shape), x.dtype)
+        v = big[tuple(slice(None, None, 2) for _ in x.shape)]
+        v[...] = x
+        return v
+    if layout == 'neg':                     # negative stride along the first axis
+        return np.ascontiguousarray(x[::-1])[::-1]
+    if layout == 'inner':                   # interior of a larger array
+        big = np.zeros(tuple(n + 2 for n in x.shape), x.dtype)
+        v = big[tuple(slice(1, n + 1) for n in x.shape)]
+        v[...] = x
+        return v
+    if layout == 'perm':                    # axes rotated: neither C nor F order for ndim >= 3
+        perm = tuple(range(1, x.ndim)) + (0,)
+        return np.ascontiguousarray(x.transpose(perm)).transpose(tuple(np.argsort(perm).tolist()))
+    if layout == 'unaligned':
+        buf = np.zeros(x.nbytes + 1, np.uint8)
+        v = np.ndarray(x.shape, x.dtype, buffer=buf, offset=1)
+        v[...] = x
+        return v
+    if layout == 'readonly':
+        y = np.array(x, order='C')
+        y.setflags(write=False)
+        return y
+    raise ValueError(layout)
+
+
+def sub(x, sl):
+    """x[sl] as an ndarray (indexing a 0-d array with () gives a scalar that loses the byte order)."""
+    return x[sl] if sl != () else x
+
+
+def lay_class(a):
+    return 0 if a.flags.c_contiguous else 1 if a.flags.f_contiguous else 2
+
+
+def parse_npy(raw):
+    fp = io.BytesIO(raw)
+    ver = tuple(np.lib.format.read_magic(fp))
+    rd = np.lib.format.read_array_header_1_0 if ver == (1, 0) else np.lib.format.read_array_header_2_0
+    shape, fo, dt = rd(fp)
+    return ver, tuple(shape), bool(fo), dt, raw[fp.tell():]
+
+
+def block_slices(chunks):
+    axes = [list(zip(np.cumsum((0,) + tuple(c)[:-1]).tolist(), np.cumsum(c).tolist())) for c in chunks]
+    return [tuple(b) for b in itertools.product(*axes)]
+
+
+def raw_object(be, kind, store, key, norm):
+    """Bytes of the object with the model's key (None if absent)."""
+    if kind == 's3':
+        return be.s3.objects.get(norm[key])
+    path = os.path.join(store.root, key)
+    return open(path, 'rb').read() if os.path.isfile(path) else None
+
+
+def model_names(ctx, items):
+    """items: [(array_name, ((start, stop), ...))] -> object keys as the model names them (+ S3 paths)."""
+    mos = ctx.model([[7, [1, codes(nm), [list(se) for se in sl], [[] for _ in sl], [], 0, 0]] for nm, sl in items])
+    keys = [destr(mo[1]) + '.npy' for mo in mos]
+    norm = {}
+    uk = sorted(set(keys))
+    for k, o in zip(uk, ctx.model([[7, [5, codes('/' + k)]] for k in uk])):
+        norm[k] = destr(o[0])
+    return keys, norm
+
+
+def gen_layout_cases(ctx, n):
+    rng = ctx.rng
+    out = []
+    for i in range(n):
+        kind = ['npy', 's3', 'npyd', 'dict', 'npy', 's3'][i % 6]
+        chunks = rand_chunks(rng, maxlen=5, allow0=False)
+        if rng.random() < 0.7:
+            while len(chunks) < 2:
+                chunks = rand_chunks(rng, maxlen=5, allow0=False)
+        if rng.random() < 0.35:       # whole axes in one chunk: the blocks inherit the contiguity of the array
+            chunks = [[sum(c)] if rng.random() < 0.7 else c for c in chunks]
+        out.append((kind, dict(dtype=dt_repr(rng.choice(DTYPES)), chunks=chunks, layout=rng.choice(LAYOUTS),
+                               via=rng.choice(['dask', 'dask', 'daskT', 'chunk', 'chunk']))))
+    return out
+
+
+def run_layout_cases(ctx, be, cases):
+    prep = []
+    for kind, c in cases:
+        dtype = np.dtype(dt_of(c['dtype']))
+        chunks = [tuple(x) for x in c['chunks']]
+        shape = tuple(sum(x) for x in chunks)
+        x = conv(dtype, np.arange(int(np.prod(shape, dtype=int))).reshape(shape))
+        bl = block_slices(chunks)
+        sl = [tuple(slice(a, b) for a, b in b_) for b_ in bl]
+        if c['via'] == 'chunk':
+            blocks = [make_layout(sub(x, s), c['layout']) for s in sl]
+        else:
+            xl = make_layout(x, c['layout'])
+            blocks = [sub(xl, s) for s in sl]
+        prep.append((dtype, chunks, shape, x, bl, sl, blocks))
+    name_items, wires = [], []
+    for (kind, c), (dtype, chunks, shape, x, bl, sl, blocks) in zip(cases, prep):
+        for b_, blk in zip(bl, blocks):
+            name_items.append((NAMED1[kind], b_))
+            wires.append([71, [1, list(blk.shape), lay_class(blk)]])
+    keys, norm = model_names(ctx, name_items)
+    mos = ctx.model(wires)
+    k = 0
+    for (kind, c), (dtype, chunks, shape, x, bl, sl, blocks) in zip(cases, prep):
+        nb = len(bl)
+        layout_case(ctx, be, kind, c, dtype, chunks, shape, x, bl, sl, blocks, keys[k:k + nb], norm, mos[k:k + nb])
+        k += nb
+        ctx.note_case(('lay', kind, repr(c)), nontrivial=c['layout'] != 'C' and len(shape) >= 2 and min(shape) >= 2,
+                      sample=dict(op='layout', backend=kind, **c))
+        ctx.count('layout:' + kind)
+        ctx.count('layout=' + c['layout'])
+        ctx.count('via=' + c['via'])
+
+
+def layout_case(ctx, be, kind, c, dtype, chunks, shape, x, bl, sl, blocks, keys, norm, mos):
+    nd = len(shape)
+    sig = 'op=layout;backend=%s;layout=%s;' % (kind, c['layout'])
+    store, name, _ = be.new(kind, shape, dtype, NAMED1[kind])
+    with dask.config.set(**SYNC):
+        try:
+            if c['via'] == 'chunk':
+                res = [store.put_chunk_noraise(name, s, blk) for s, blk in zip(sl, blocks)]
+            elif c['via'] == 'daskT' and nd >= 1:
+                xt = make_layout(np.array(x.T, order='C'), c['layout'])
+                arr = da.from_array(xt, chunks=tuple(chunks[::-1])).T
+                res = np.asarray(store.put_dask_array(name, arr).compute(), dtype=object).ravel().tolist()
+            else:
+                arr = da.from_array(make_layout(x, c['layout']), chunks=tuple(chunks))
+                res = np.asarray(store.put_dask_array(name, arr).compute(), dtype=object).ravel().tolist()
+            bad = [r for r in res if r is not None]
+        except Exception as e:
+            bad = [e]
+        ctx.traces_validated += 1
+        if bad:
+            ctx.disagree(sig + 'symptom=put_failed:%s' % type(bad[0]).__name__, c, repr(bad[0])[:200], 0,
+                         'storing a chunk with this memory layout failed (model: every put succeeds)')
+            be.done()
+            return
+        n0 = len(ctx.disagreements)
+        # read back: chunk by chunk and as a lazy array
+        try:
+            got = [np.asarray(store.get_chunk(name, s, dtype)) for s in sl]
+            whole = np.asarray(store.get_dask_array(name, tuple(chunks), dtype, errors='raise').compute())
+        except Exception as e:
+            ctx.disagree(sig + 'symptom=get_raised:%s' % type(e).__name__, c, repr(e)[:200], 'data',
+                         'reading back raised where the round trip must succeed')
+            be.done()
+            return
+    for s, g in zip(sl, got):
+        if not same(g, sub(x, s)):
+            ctx.disagree(sig + 'symptom=wrong_chunk', c, g.ravel()[:8].tolist(), None,
+                         'chunk read back differs from the chunk written (element order, dtype or shape)',
+                         spec=sub(x, s).ravel()[:8].tolist())
+            break
+    if len(ctx.disagreements) == n0 and not same(whole, x):
+        ctx.disagree(sig + 'symptom=wrong_data', c, whole.ravel()[:8].tolist(), None,
+                     'array read back differs from the array written', spec=x.ravel()[:8].tolist())
+    if len(ctx.disagreements) == n0:
+        # the objects written: header says C order and the body lists the logical elements in C order (model)
+        if kind != 'dict':
+            for b_, s, key, mo in zip(bl, sl, keys, mos):
+                raw = raw_object(be, kind, store, key, norm)
+                if raw is None:
+                    ctx.disagree(sig + 'symptom=object_missing', c, None, key, 'no object under the chunk name of a block')
+                    break
+                try:
+                    ver, oshape, fo, odt, body = parse_npy(raw)
+                except Exception as e:
+                    ctx.disagree(sig + 'symptom=object_unreadable', c, repr(e)[:200], key, 'stored object is not a valid .npy file')
+                    break
+                (mfo, mshape, mbody), mdec = mo
+                want = np.array(sub(x, s), order='C').reshape(-1)[np.array(mbody, dtype=np.int64)] if mbody else np.zeros(0, dtype)
+                if (bool(fo), list(oshape), odt) != (bool(mfo), mshape, dtype):
+                    ctx.disagree(sig + 'symptom=object_header', c, [bool(fo), list(oshape), str(odt)], [bool(mfo), mshape, str(dtype)],
+                                 'header of the stored .npy object differs from the model (fortran_order, shape, dtype)', kind='tie')
+                    break
+                if body != want.tobytes():
+                    ctx.disagree(sig + 'symptom=object_body', c, list(body[:16]), list(want.tobytes()[:16]),
+                                 'body of the stored .npy object is not the C-order listing of the chunk', kind='tie')
+                    break
+                if mdec != list(range(len(mdec))):
+                    ctx.disagree(sig + 'symptom=model_decode', c, None, mdec, 'model: decode(encode) is not the identity', kind='tie')
+    be.done()
+
+
+def gen_foreign_cases(ctx, n):
+    rng = ctx.rng
+    out = []
+    for i in range(n):
+        kind = ['npy', 's3'][i % 2]
+        nd = rng.choice([0, 1, 2, 2, 2, 3])
+        shape = [rng.randint(1, 4) for _ in range(nd)]
+        start = [rng.choice([0, 0, 3, 100000]) for _ in range(nd)]
+        out.append((kind, dict(dtype=dt_repr(rng.choice(DTYPES)), shape=shape, start=start, fortran=rng.random() < 0.7,
+                               version=rng.choice([1, 1, 2]))))
+    return out
+
+
+def run_foreign_cases(ctx, be, cases):
+    """Objects written by another .npy writer (np.lib.format.write_array, C or Fortran order, format 1.0 / 2.0) under
+    the model's object key must read back element for element."""
+    items = [(NAMED1[kind], [(a, a + n) for a, n in zip(c['start'], c['shape'])]) for kind, c in cases]
+    keys, norm = model_names(ctx, items)
+    mos = ctx.model([[71, [2, c['shape'], c['fortran']]] for _, c in cases])
+    for (kind, c), key, mo in zip(cases, keys, mos):
+        dtype = np.dtype(dt_of(c['dtype']))
+        shape = tuple(c['shape'])
+        x = conv(dtype, np.arange(int(np.prod(shape, dtype=int))).reshape(shape))
+        sig = 'op=foreign;backend=%s;fortran=%d;version=%d;ndim=%d;' % (kind, c['fortran'], c['version'], len(shape))
+        fp = io.BytesIO()
+        np.lib.format.write_array(fp, np.asarray(x, order='F' if c['fortran'] else 'C'),
+                                  version=(c['version'], 0), allow_pickle=False)
+        raw = fp.getvalue()
+        (mfo, mshape, mbody), mdec = mo
+        ver, oshape, fo, odt, body = parse_npy(raw)
+        want = x.reshape(-1)[np.array(mbody, dtype=np.int64)]
+        # numpy only sets fortran_order for arrays that are F- but not C-contiguous
+        if fo and (list(oshape) != mshape or body != want.tobytes() or not mfo):
+            ctx.disagree(sig + 'symptom=model_foreign_object', c, list(body[:16]), mbody, "numpy's Fortran-ordered object differs from the model's", kind='tie')
+        if mdec != list(range(len(mdec))):
+            ctx.disagree(sig + 'symptom=model_decode', c, None, mdec, 'model: decoding the foreign object is not the identity', kind='tie')
+        store, name, _ = be.new(kind, shape, dtype, NAMED1[kind])
+        if kind == 's3':
+            be.s3.objects[norm[key]] = raw
+        else:
+            path = os.path.join(store.root, key)
+            os.makedirs(os.path.dirname(path), exist_ok=True)
+            with open(path, 'wb') as f:
+                f.write(raw)
+        sl = tuple(slice(a, a + n) for a, n in zip(c['start'], shape))
+        try:
+            with dask.config.set(**SYNC):
+                g = np.asarray(store.get_chunk(name, sl, dtype))
+                w = np.asarray(store.get_dask_array(name, tuple((n,) for n in shape), dtype, offset=tuple(c['start']),
+                                                    errors='raise').compute())
+        except Exception as e:
+            ctx.disagree(sig + 'symptom=get_raised:%s' % type(e).__name__, c, repr(e)[:200], 'data',
+                         'reading a valid .npy object raised')
+            g = w = None
+        if g is not None and not (same(g, x) and same(w, x)):
+            ctx.disagree(sig + 'symptom=wrong_data', c, g.ravel()[:8].tolist(), None,
+                         'chunk decoded from a valid .npy object differs from its content', spec=x.ravel()[:8].tolist())
+        be.done()
+        ctx.traces_validated += 1
+        ctx.note_case(('foreign', kind, repr(c)), nontrivial=bool(fo), sample=dict(op='foreign', backend=kind, **c))
+        ctx.count('foreign:' + kind)
+        ctx.count('foreign_fortran=%s' % bool(fo))
+
+
+# ---------------------------------------------------------------------------------------------------
+# (h) arrays written in several parts / to several stores by ONE dask compute call, read by one compute call
+
+MNAMES = {'dict': ['x', 'y'], 'npy': ['x', 'sub/y'], 's3': ['b_k/x_y', 'b_k/z']}
+STORESETS = [['dict'], ['npy'], ['s3'], ['npy', 'npy'], ['dict', 'dict'], ['npy', 's3'], ['s3', 'dict'], ['dict', 'npy']]
+
+
+def multi_parts(big, cuts):
+    """[(offset, part_chunks)] of the parts: per axis the chunk list is cut into consecutive groups."""
+    axes = []
+    for cs, cut in zip(big, cuts):
+        groups, k, start = [], 0, 0
+        for n in cut:
+            g = cs[k:k + n]
+            groups.append((start, list(g)))
+            start += sum(g)
+            k += n
+        axes.append(groups)
+    return [([g[0] for g in p], [g[1] for g in p]) for p in itertools.product(*axes)]
+
+
+def gen_multi_cases(ctx, n):
+    rng = ctx.rng
+    out = []
+    for i in range(n):
+        nd = rng.choice([0, 1, 1, 2, 2, 2, 3])
+        big, cuts = [], []
+        for _ in range(nd):
+            if rng.random() < 0.65:     # repeated pattern: the parts get identical chunk layouts
+                pat = [rng.randint(1, 3) for _ in range(rng.randint(1, 2))]
+                reps = rng.randint(1, 3 if nd < 3 else 2)
+                big.append(pat * reps)
+                cuts.append([len(pat)] * reps)
+            else:
+                cs = rand_chunks(rng, maxlen=5, allow0=False)
+                while len(cs) < 1:
+                    cs = rand_chunks(rng, maxlen=5, allow0=False)
+                cs = cs[0]
+                cut = []
+                k = len(cs)
+                while k > 0:
+                    c = rng.randint(1, k)
+                    cut.append(c)
+                    k -= c
+                big.append(cs)
+                cuts.append(cut)
+        stores = rng.choice(STORESETS)
+        pairs = [(s, m) for s in range(len(stores)) for m in (0, 1)]
+        rng.shuffle(pairs)
+        pairs = sorted(pairs[:rng.randint(1, min(3, len(pairs)))])
+        # data id: combinations may mirror the same source arrays (same dask arrays put twice)
+        combos = []
+        for s, m in pairs:
+            combos.append([s, m, rng.choice([c[2] for c in combos]) if combos and rng.random() < 0.4 else len(combos)])
+        index = []
+        if nd:      # non-empty selections only (empty ones: finding C07-F3, see index_case)
+            for _ in range(20):
+                index = rand_index(rng, [sum(c) for c in big])
+                if 0 not in np.empty([sum(c) for c in big], dtype=[])[tuple(slice(a, b) for a, b in index)].shape:
+                    break
+            else:
+                index = []
+        out.append(dict(dtype=dt_repr(rng.choice(DTYPES)), big=big, cuts=cuts, stores=stores, combos=combos,
+                        index=index, errors=rng.choice(['raise', 0]), sched=rng.choice(['synchronous'] * 3 + ['threads'])))
+    return out
+
+
+def run_multi_cases(ctx, be, cases):
+    wires, metas = [], []
+    for c in cases:
+        parts = multi_parts(c['big'], c['cuts'])
+        puts, gets, meaning = [], [], []
+        for ci, (s, m, did) in enumerate(c['combos']):
+            nm = MNAMES[c['stores'][s]][m]
+            for pi, (off, pch) in enumerate(parts):
+                # labels of the part: base + C-order position inside the PART is not what we want: the source array
+                # is a slice of the big array, so the model gets the part as its own array with labels
+                # did * 100000 + pi * 1000 + position-in-part and the harness maps them back
+                puts.append([s, codes(nm), 7, did * 100 + pi, pch, off, did * 100000 + pi * 1000])
+        for ci, (s, m, did) in enumerate(c['combos']):
+            nm = MNAMES[c['stores'][s]][m]
+            gets.append([s, codes(nm), 7, c['big'], [], []])
+            meaning.append(('whole', ci, None))
+            for pi, (off, pch) in enumerate(parts):
+                # the part at the origin is read without an offset, like the whole array (same name, other chunking)
+                gets.append([s, codes(nm), 7, pch, off if any(off) else [], []])
+                meaning.append(('part', ci, pi))
+            if c['index'] and ci == 0:
+                gets.append([s, codes(nm), 7, c['big'], [], [[[] if a is None else [a], [] if b is None else [b]] for a, b in c['index']]])
+                meaning.append(('index', ci, None))
+        wires.append([72, [len(c['stores']), puts, gets, c['errors'] != 'raise']])
+        metas.append((parts, meaning))
+    mos = ctx.model(wires)
+    for c, (parts, meaning), mo in zip(cases, metas, mos):
+        multi_case(ctx, be, c, parts, meaning, mo)
+        same_layout = len({repr(p[1]) for p in parts}) < len(parts)
+        ctx.note_case(('multi', repr(c)), nontrivial=len(parts) * len(c['combos']) >= 2,
+                      sample=dict(op='multi', **c))
+        ctx.count('multi:stores=' + '+'.join(c['stores']))
+        ctx.count('multi:parts=%s' % ('single' if len(parts) == 1 else 'equal_layout' if same_layout else 'distinct_layout'))
+        ctx.count('multi:combos=%d' % len(c['combos']))
+
+
+def multi_case(ctx, be, c, parts, meaning, mo):
+    dtype = np.dtype(dt_of(c['dtype']))
+    big = [tuple(x) for x in c['big']]
+    shape = tuple(sum(x) for x in big)
+    nd = len(shape)
+    same_layout = len({repr(p[1]) for p in parts}) < len(parts)
+    sig = 'op=multi;nstores=%d;parts=%s;' % (
+        len({cb[0] for cb in c['combos']}),
+        'single' if len(parts) == 1 else 'equal_layout' if same_layout else 'distinct_layout')
+    npos = int(np.prod(shape, dtype=int))
+    # labels as the model numbers them: did * 100000 + pi * 1000 + C-order position inside the part
+    lab = {}
+    for did in sorted({cb[2] for cb in c['combos']}):
+        L = np.zeros(shape, np.int64)
+        for pi, (off, pch) in enumerate(parts):
+            psh = tuple(sum(x) for x in pch)
+            sl = tuple(slice(o, o + n) for o, n in zip(off, psh))
+            L[sl] = did * 100000 + pi * 1000 + np.arange(int(np.prod(psh, dtype=int))).reshape(psh)
+        lab[did] = L
+    data = {did: conv(dtype, L) for did, L in lab.items()}
+    stores, keyfns = [], []
+    for kind in c['stores']:
+        if kind == 'dict':
+            stores.append(c07stores.RecDict(**{n: np.zeros(shape, dtype) for n in MNAMES['dict']}))
+            keyfns.append(None)
+        else:
+            st, _, keys = be.new(kind, shape, dtype, MNAMES[kind][0])
+            st.create_array(MNAMES[kind][1])
+            stores.append(st)
+            keyfns.append(keys)
+    srcs = {}
+    puts = []
+    for s, m, did in c['combos']:
+        nm = MNAMES[c['stores'][s]][m]
+        for pi, (off, pch) in enumerate(parts):
+            if (did, pi) not in srcs:
+                psh = tuple(sum(x) for x in pch)
+                sl = tuple(slice(o, o + n) for o, n in zip(off, psh))
+                srcs[did, pi] = da.from_array(np.array(sub(data[did], sl), order='C'), chunks=tuple(tuple(x) for x in pch))
+            puts.append(stores[s].put_dask_array(nm, srcs[did, pi], tuple(off)))
+    try:
+        res = dask.compute(*puts, scheduler=c['sched'])
+        bad = [r for out in res for r in np.asarray(out, dtype=object).ravel().tolist() if r is not None]
+        shapes_ok = all(np.asarray(out, dtype=object).shape == p.numblocks for out, p in zip(res, puts))
+    except Exception as e:
+        bad, shapes_ok = [e], True
+    ctx.traces_validated += 1
+    if bad or not shapes_ok:
+        ctx.disagree(sig + 'symptom=put_failed:%s' % (type(bad[0]).__name__ if bad else 'result_shape'), c,
+                     repr(bad[0])[:200] if bad else 'shape', 0, 'putting the parts in one compute call failed')
+        be.done()
+        return
+    # objects created
+    for si, (kind, kf) in enumerate(zip(c['stores'], keyfns)):
+        if kf is None:
+            continue
+        impl_keys = kf()
+        mkeys = sorted(destr(k) for k in mo[0][si])
+        if kind == 's3':
+            nk = ctx.model([[7, [5, codes('/' + k)]] for k in mkeys])
+            mkeys = sorted(destr(o[0]) for o in nk)
+        if impl_keys != mkeys:
+            miss = [k for k in mkeys if k not in impl_keys]
+            ctx.disagree(sig + 'symptom=object_keys', c, impl_keys[:8], mkeys[:8],
+                         'objects in the store differ from the chunk names of all parts (missing: %r)' % (miss[:4],))
+            break
+    # reads, again in one compute call
+    gets, exps = [], []
+    for (what, ci, pi), mres in zip(meaning, mo[1]):
+        s, m, did = c['combos'][ci]
+        nm = MNAMES[c['stores'][s]][m]
+        if what == 'whole':
+            gets.append(stores[s].get_dask_array(nm, tuple(big), dtype, errors=c['errors']))
+            exps.append(data[did])
+        elif what == 'part':
+            off, pch = parts[pi]
+            psh = tuple(sum(x) for x in pch)
+            gets.append(stores[s].get_dask_array(nm, tuple(tuple(x) for x in pch), dtype,
+                                                 offset=tuple(off) if any(off) else (), errors=c['errors']))
+            exps.append(sub(data[did], tuple(slice(o, o + n) for o, n in zip(off, psh))))
+        else:
+            index = tuple(slice(a, b) for a, b in c['index'])
+            gets.append(stores[s].get_dask_array(nm, tuple(big), dtype, index=index, errors=c['errors']))
+            exps.append(sub(data[did], index))
+    try:
+        outs = [np.asarray(o) for o in dask.compute(*gets, scheduler=c['sched'])]
+    except Exception as e:
+        outs = e
+    be.done()
+    if mo[1] != mo[2]:
+        ctx.disagree(sig + 'symptom=model_law', c, None, [mo[1], mo[2]], 'model: gets in one compute differ from gets one by one', kind='tie')
+    if isinstance(outs, Exception):
+        ctx.disagree(sig + 'symptom=get_raised:%s' % type(outs).__name__, c, repr(outs)[:200], 'data',
+                     'reading the parts back in one compute call raised')
+        return
+    for (what, ci, pi), o, e, mres in zip(meaning, outs, exps, mo[1]):
+        if not same(o, e):
+            ctx.disagree(sig + 'read=%s;symptom=wrong_data' % what, c, o.ravel()[:8].tolist(), None,
+                         'data read back (%s of combination %d%s) differ from the data written'
+                         % (what, ci, '' if pi is None else ', part %d' % pi), spec=e.ravel()[:8].tolist())
+            break
+        if 0 in e.shape and what == 'index':
+            continue        # empty selections: the model of _prune_chunks is not compared (see index_case)
+        if mres[0] != 0 or len(mres[1]) != e.size or \
+                not same(conv(dtype, np.array(mres[1], dtype=np.int64).reshape(e.shape)), e):
+            ctx.disagree(sig + 'read=%s;symptom=model_differs' % what, c, o.ravel()[:8].tolist(), mres, 'model result differs', kind='tie')
+            break
+
+
+# ---------------------------------------------------------------------------------------------------
 
 def run_witness(ctx, be, w):
     kind = w.get('kind')
@@ -773,6 +1265,12 @@ def run_witness(ctx, be, w):
                                                     errors=w.get('errors', 'raise')))])
     elif kind == 'generate_chunks':
         run_gc_batch(ctx, [w['case']])
+    elif kind == 'multi':
+        run_multi_cases(ctx, be, [w['case']])
+    elif kind == 'layout':
+        run_layout_cases(ctx, be, [(w['backend'], w['case'])])
+    elif kind == 'foreign':
+        run_foreign_cases(ctx, be, [(w['backend'], w['case'])])
 
 
 def run(ctx):
@@ -792,13 +1290,21 @@ def run(ctx):
             run_roundtrips(ctx, be, gen_roundtrips(ctx, ctx.scale(480, 6000)))
             run_index_cases(ctx, be, gen_index_cases(ctx, ctx.scale(300, 4500)))
             run_ops(ctx, be, ctx.scale(120, 1500))
+            run_layout_cases(ctx, be, gen_layout_cases(ctx, ctx.scale(400, 4800)))
+            run_foreign_cases(ctx, be, gen_foreign_cases(ctx, ctx.scale(120, 1500)))
+            run_multi_cases(ctx, be, gen_multi_cases(ctx, ctx.scale(300, 3600)))
             if ctx.tier == 'thorough':
                 run_gc_exhaustive(ctx)
                 sample = [[7, [6, 5, z]] for z in (0, 7, 99999, 100000, -1, -12345, 10 ** 17)]
                 sample += [[7, [2, codes('x'), [[2, 1], [1, 2]], [3, 100000], [3, 100000], 0]],
                            [7, [3, codes('x'), [[2, 2, 2], [1, 1]], [[[1], [5]], [[], []]], 1]],
                            [7, [4, [10, 7], 13, 2, [0, 1], 0, [[0, 4]], [[3, 3, 3, 1], [2, 2, 2, 1]]]],
-                           [7, [5, codes('/a_b/c_d/00000_00001.npy')]]]
+                           [7, [5, codes('/a_b/c_d/00000_00001.npy')]],
+                           [71, [1, [2, 3], 1]], [71, [2, [2, 3, 2], 1]], [71, [2, [], 1]],
+                           [72, [2, [[0, codes('x'), 7, 1, [[2, 2]], [0], 0], [0, codes('x'), 7, 2, [[2, 2]], [4], 4000],
+                                     [1, codes('x'), 7, 1, [[2, 2]], [0], 0]],
+                                 [[0, codes('x'), 7, [[2, 2, 2, 2]], [], []], [1, codes('x'), 7, [[2, 2]], [0], []],
+                                  [0, codes('x'), 7, [[2, 2, 2, 2]], [], [[[3], [6]]]]], 0]]]
                 from vh import core
                 with core.BuildLock():      # a clean rebuild of Props/C07.vo leaves other models uncompiled
                     core.make(' '.join(x[:-2] + '.vo' for x in core.coq_sources() if x.startswith(('Base/', 'Gen/', 'Model/'))))
@@ -828,6 +1334,12 @@ def replay(ctx, doc):
                     run_index_cases(ctx, be, [(k, case)])
             elif op == 'generate_chunks':
                 run_gc_batch(ctx, [case])
+            elif op == 'multi':
+                run_multi_cases(ctx, be, [case])
+            elif op == 'layout':
+                run_layout_cases(ctx, be, [(backend, case)])
+            elif op == 'foreign':
+                run_foreign_cases(ctx, be, [(backend, case)])
             elif op == 'normalise_bucket':
                 mo = ctx.model([[7, [5, codes(case['path'])]]])[0]
                 u = _normalise_bucket_name('http://127.0.0.1:9000' + case['path'])
